@@ -11,7 +11,7 @@ def isSemi (t : Tok) : Bool := t.tt == T.Punctuation && t.val == txt ";"
 def noGo (cfg : SplitCfg) (t : Tok) : Bool :=
   t.tt != T.Keyword ||
     (match splitFirst cfg.isSpace t.val with
-     | some w => w != txt "GO"
+     | some w => cfg.upper w != txt "GO"
      | none => false)
 
 def quiet (cfg : SplitCfg) : SplitFlags → Int → List Tok → Bool
